@@ -256,6 +256,17 @@ func (db *Database) resolveDirty() error {
 	if err != nil {
 		return err
 	}
+	if len(buf) >= headerSize && binary.BigEndian.Uint32(buf[44:48]) == 0 {
+		// A database without any table yet: SQLite decides on the schema
+		// format (and the text encoding) when the first table is made, and
+		// leaves 0 in the header until then. There is nothing in such a
+		// file that depends on either.
+		buf = append([]byte{}, buf...)
+		binary.BigEndian.PutUint32(buf[44:48], 4)
+		if binary.BigEndian.Uint32(buf[56:60]) == 0 {
+			binary.BigEndian.PutUint32(buf[56:60], 1)
+		}
+	}
 	newHeader, err := parseHeader(buf)
 	if err != nil {
 		return err
